@@ -40,7 +40,7 @@ type vTransport struct {
 	isClosed bool
 	// writesAfterClose: bytes somebody tried to write after the transport was closed
 	writesAfterClose int
-	closes   int
+	closes           int
 
 	// probe is evaluated at every Write (before the bytes are recorded); results are kept in probes
 	probe  func() int
@@ -54,7 +54,7 @@ type vTransport struct {
 	slowRelease time.Duration
 	// slowReadRelease: a Read blocked at the end of the input returns only this long after Close
 	slowReadRelease time.Duration
-	closeErr    error // returned by Close
+	closeErr        error // returned by Close
 	// slowClose: Close takes this long (a TLS close_notify to a peer that has stopped reading, a slow kernel)
 	slowClose time.Duration
 	// holdSurvivesClose: a held Write is not released by Close: it completes (its bytes are taken) when release is
